@@ -196,7 +196,11 @@ fn main() {
             }
             let results: Vec<(String, bool)> = hs.into_iter().map(|h| h.join().unwrap()).collect();
             set_hooks();
-            let seq = (f.parse)(inp0);
+            let (parse0, inp_owned0) = (f.parse, inp0.clone());
+            let Ok(seq) = guarded(move || parse0(&inp_owned0)) else {
+                mismatches.push(json!({"id": id, "what": "the generated module panics", "input": inp0}));
+                continue;
+            };
             let seq_hit = cap_hit();
             bump("threads:first-use-race", &mut classes);
             for (r, hit) in &results {
@@ -348,7 +352,14 @@ fn main() {
         for inp in p["inputs"].as_array().unwrap() {
             let inp = inp.as_str().unwrap();
             comparisons += 1;
-            let ct = (f.lex)(inp);
+            let (lexf, inp_owned) = (f.lex, inp.to_string());
+            let ct = match guarded(move || lexf(&inp_owned)) {
+                Ok(ct) => ct,
+                Err(msg) => {
+                    mismatches.push(json!({"id": id, "what": "the generated lexer module panics", "input": inp, "panic": msg, "lexer": lsrc}));
+                    break;
+                }
+            };
             let r = rt.lex(inp);
             if ct != r {
                 mismatches.push(json!({"id": id, "what": "compile-time and run-time lexers differ", "input": inp, "ct": ct, "rt": r, "lexer": lsrc}));
